@@ -12,7 +12,7 @@ from props import calls as K
 
 PID = 'C07'
 HARNESS = 'h_c07'
-HARNESS_EXTRA = ('rec.h',)
+HARNESS_EXTRA = ('rec.h', 'reuse.h')
 MODEL_MODULE = 'V.C07.Model'
 SIZES = [4096, 16, 32]
 VARIANTS = {('N%d' % n): ({} if n == 4096 else {'POTASSCO_VERIF_BUF_SIZE': n}) for n in SIZES}
@@ -24,6 +24,15 @@ BIG = [2 ** 31, 2 ** 32 - 1, 2 ** 32, 2 ** 63 - 1, 2 ** 63, 2 ** 64 + 1, 2 ** 64
 
 def variant_of(c):
     return 'N%d' % c[0]
+
+
+def primed(c):
+    """harness/reuse.h: every other case (FNV-1a over the case's integers, bit 17) is read by a reader OBJECT that has read an accepted
+    incremental primer text before (reader reuse; invisible for a correct reader, so neither the model nor the oracle depends on it)"""
+    h = 1469598103934665603
+    for x in c:
+        h = ((h ^ (x & 0xFFFFFFFFFFFFFFFF)) * 1099511628211) & 0xFFFFFFFFFFFFFFFF
+    return bool((h >> 17) & 1)
 
 
 def decode(c):
@@ -38,7 +47,10 @@ def mk(n, ob, data):
 
 def describe(c):
     n, ob, data = decode(c)
-    return 'N=%d claspExt=%d filter=%d text=%r' % (n, ob & 1, (ob >> 3) & 1, bytes(x & 255 for x in data).decode('latin-1'))
+    rd = 'fresh'
+    if primed(c):
+        rd = 'reused(after reading %r)' % ('90 0\n0\n0\nB+\n0\nB-\n0\n1\n' if ob & 1 else '0\n0\nB+\n0\nB-\n0\n1\n')
+    return 'N=%d claspExt=%d filter=%d reader=%s text=%r' % (n, ob & 1, (ob >> 3) & 1, rd, bytes(x & 255 for x in data).decode('latin-1'))
 
 
 # ---------------------------------------------------------------------------------------------------
